@@ -92,7 +92,11 @@ def openerOf (s : State) : Except Err Nat :=
       -- card_key with _HighHandOpeningLookup.rank_order (STANDARD), then suit
       let key (c : Card) : Nat × Nat := ((RankOrder.standard.idxOf c.rank), c.suit)
       let lt (a b : Nat × Nat) : Bool := a.1 < b.1 || (a.1 == b.1 && a.2 < b.2)
-      let minCard (cs : List Card) : Option Card := cs.foldl (fun acc c => match acc with
+      -- `min_or_none`: a rank outside the order makes `rank_order.index` raise ValueError,
+      -- which `min_or_none` swallows, returning None
+      let minCard (cs : List Card) : Option Card :=
+        if cs.any (fun c => !RankOrder.standard.contains c.rank) then none else
+        cs.foldl (fun acc c => match acc with
         | none => some c
         | some m => if lt (key c) (key m) then some c else some m) none
       let ups := (playerIndices cfg).map fun i => minCard (s.upCards i)
@@ -103,7 +107,9 @@ def openerOf (s : State) : Except Err Nat :=
     | .highCard =>
       let key (c : Card) : Nat × Nat := ((RankOrder.regular.idxOf c.rank), c.suit)
       let lt (a b : Nat × Nat) : Bool := a.1 < b.1 || (a.1 == b.1 && a.2 < b.2)
-      let maxCard (cs : List Card) : Option Card := cs.foldl (fun acc c => match acc with
+      let maxCard (cs : List Card) : Option Card :=
+        if cs.any (fun c => !RankOrder.regular.contains c.rank) then none else
+        cs.foldl (fun acc c => match acc with
         | none => some c
         | some m => if lt (key m) (key c) then some c else some m) none
       let ups := (playerIndices cfg).map fun i => maxCard (s.upCards i)
